@@ -1,0 +1,158 @@
+/**
+ * @file verif_hooks.h
+ * Verification-only instrumentation, compiled only with -DUNCRUSTIFY_VERIF.
+ * Inert unless the environment variable UNCRUSTIFY_VERIF_DUMP is set.
+ */
+#ifndef VERIF_HOOKS_H_INCLUDED
+#define VERIF_HOOKS_H_INCLUDED
+#ifdef UNCRUSTIFY_VERIF
+
+#include "chunk.h"
+#include "uncrustify.h"
+#include "uncrustify_types.h"
+
+#include <cstdio>
+#include <cstdlib>
+#include <string>
+
+namespace verif
+{
+
+inline const char *dump_prefix()
+{
+   static const char *p = getenv("UNCRUSTIFY_VERIF_DUMP");
+
+   return(p);
+}
+
+
+inline int &file_index()
+{
+   static int idx = 0;
+
+   return(idx);
+}
+
+
+inline const char * &last_space_rule()
+{
+   static const char *r = "";
+
+   return(r);
+}
+
+
+inline void put_text(FILE *f, const UncText &t)
+{
+   fputc('"', f);
+
+   for (size_t i = 0; i < t.size(); i++)
+   {
+      int ch = t[i];
+
+      if (  ch == '"'
+         || ch == '\\')
+      {
+         fprintf(f, "\\%c", ch);
+      }
+      else if (  ch >= 0x20
+              && ch < 0x7f)
+      {
+         fputc(ch, f);
+      }
+      else if (  ch >= 0
+              && ch < 0x10000)
+      {
+         fprintf(f, "\\u%04x", ch);
+      }
+      else if (ch >= 0x10000)
+      {
+         int v = ch - 0x10000;
+         fprintf(f, "\\u%04x\\u%04x", 0xD800 + (v >> 10), 0xDC00 + (v & 0x3ff));
+      }
+   }
+
+   fputc('"', f);
+}
+
+
+inline void dump_chunks(const char *stage)
+{
+   const char *p = dump_prefix();
+
+   if (p == nullptr)
+   {
+      return;
+   }
+   std::string name = std::string(p) + "." + std::to_string(file_index()) + "." + stage;
+   FILE        *f   = fopen(name.c_str(), "wb");
+
+   if (f == nullptr)
+   {
+      return;
+   }
+   fprintf(f, "{\"stage\":\"%s\",\"lang\":%zu,\"file\":\"%s\"}\n", stage, (size_t)cpd.lang_flags, cpd.filename.c_str());
+
+   for (Chunk *pc = Chunk::GetHead(); pc->IsNotNullChunk(); pc = pc->GetNext())
+   {
+      fprintf(f, "[\"%s\",\"%s\",%zu,%zu,%zu,%zu,%d,%zu,%zu,%zu,", get_token_name(pc->GetType()),
+              get_token_name(pc->GetParentType()),
+              pc->GetOrigLine(), pc->GetOrigCol(), pc->GetOrigColEnd(), pc->GetColumn(),
+              pc->TestFlags(PCF_IN_PREPROC) ? 1 : 0, pc->GetNlCount(), pc->GetLevel(), pc->GetBraceLevel());
+      put_text(f, pc->GetStr());
+      fprintf(f, "]\n");
+   }
+
+   fclose(f);
+}
+
+
+inline void record_space(Chunk *first, Chunk *second, int av, int min_sp)
+{
+   const char *p = dump_prefix();
+
+   if (p == nullptr)
+   {
+      return;
+   }
+   static FILE *f      = nullptr;
+   static int  cur_idx = -1;
+
+   if (cur_idx != file_index())
+   {
+      if (f != nullptr)
+      {
+         fclose(f);
+      }
+      std::string name = std::string(p) + "." + std::to_string(file_index()) + ".space";
+      f       = fopen(name.c_str(), "wb");
+      cur_idx = file_index();
+   }
+
+   if (f == nullptr)
+   {
+      return;
+   }
+   fprintf(f, "[%zu,%zu,%zu,%zu,\"%s\",%d,%d,%d,\"%s\",\"%s\"]\n",
+           first->GetOrigLine(), first->GetOrigCol(), second->GetOrigLine(), second->GetOrigCol(),
+           last_space_rule(), av, min_sp, first->TestFlags(PCF_FORCE_SPACE) ? 1 : 0,
+           get_token_name(first->GetType()), get_token_name(second->GetType()));
+   fflush(f);
+}
+
+} // namespace verif
+
+#define VERIF_DUMP_CHUNKS(stage)             verif::dump_chunks(stage)
+#define VERIF_NEXT_FILE()                    (++verif::file_index())
+#define VERIF_SPACE_RULE(rule)               (verif::last_space_rule() = (rule))
+#define VERIF_RECORD_SPACE(a, b, av, min)    verif::record_space((a), (b), (int)(av), (min))
+
+#else // UNCRUSTIFY_VERIF
+
+#define VERIF_DUMP_CHUNKS(stage)             ((void)0)
+#define VERIF_NEXT_FILE()                    ((void)0)
+#define VERIF_SPACE_RULE(rule)               ((void)0)
+#define VERIF_RECORD_SPACE(a, b, av, min)    ((void)0)
+
+#endif // UNCRUSTIFY_VERIF
+#endif /* VERIF_HOOKS_H_INCLUDED */
